@@ -34,7 +34,7 @@ WS_CHARS = " \n\r\t"
 ALIGN_CHARS = "0123456789ABCDEFGHIJKLMNOPQRSTUVWXYZabcdefghijklmnopqrstuvwxyz"
 OP_CHARS = "?[]-'\"@iuz%$*{}(|)"
 PRINTABLE_NOQUOTE = [chr(c) for c in range(0x20, 0x7F) if c != 0x22]
-QUOTE_OPS = list("?[]-'@iuz%$*{}(|)\\ 09afAFxX,.")
+QUOTE_OPS = list("?[]-'@iuz%$*{}(|)\\ 09afAFxX,.") + ["\\", "\\", "'"]
 CTRL_CHARS = [chr(c) for c in list(range(0, 0x20)) + [0x7F]]
 # 2-, 3- and 4-byte scalars including the encoding-length boundaries
 NONASCII = ["\u0080", "\u00e9", "\u00df", "\u00a0", "\u07ff", "\u0800", "\u20ac", "\u4e2d", "\ud7ff", "\ue000",
@@ -258,6 +258,17 @@ def gen_valid(rng, tier):
     for t in SAVE_TOKENS:
         cases.append(op(t))
         cases.append(op(t + t + " " + t))
+    # every ASCII character (operators, whitespace, controls) inside a quoted string
+    for c in range(128):
+        if c != 0x22:
+            cases.append(op("12 \"" + chr(c) + "\" \"a" + chr(c) * 2 + "\"34"))
+    cases.append(op("\"" + "".join(chr(c) for c in range(128) if c != 0x22) + "\""))
+    # redundant atoms at the end are trimmed (Skip, Rangext, Many, Pop), also across closed groups
+    for t in ["12 ?", "12 [5]", "12 [1-2]", "12 [300]", "12 [2-700]", "12 ${ }", "12 ${ ? [5] } [1-2]", "12 ${ 34 } ?", "12 ${${}}",
+              "12 ( ? ) ?", "12 ( ? | [5] ) [1-2]", "12 ${ ' } ?", "12 ${ ? } ' ?", "12 %{ ${ *{ ? } } } ? [5] [1-2]", "? [5] [1-2]",
+              "${ } ${ }", "12 ( ${ } ) ${ }", "12 ( 34 | ? ) ${ }", "12 [0] [0-1] ?", "' ?", "12 $ { { ? } }"]:
+        cases.append(op(t))
+        cases.append(op(t.replace(" ", "")))
     # `?` runs across the 255 coalescing limit, with and without whitespace
     for n in list(range(1, 8)) + [127, 128, 253, 254, 255, 256, 257, 258, 300, 509, 510, 511, 512, 765, 766]:
         cases.append(op("12" + "?" * n + "34"))
@@ -353,8 +364,8 @@ def gen_adjacency(rng, tier):
             cases.append(op(adjacent([a, b], "", "")))
             cases.append(op(adjacent([a, b], "", " C3")))
             cases.append(op(adjacent([a, b], " ", "")))
-            cases.append(op(adjacent([a, b], "\n\t \r", " C3")))
             if tier != "quick":
+                cases.append(op(adjacent([a, b], "\n\t \r", " C3")))
                 cases.append(op(adjacent([a, b], " ", " C3")))
                 cases.append(op(adjacent([a, b], "\n\t \r", "")))
                 # the bare pair, no wrapping at all
@@ -619,17 +630,17 @@ def gen_mutations(rng, tier):
 def gen_random(rng, tier):
     """random ASCII strings and random strings over the operator alphabet"""
     cases = []
-    for _ in range(_n(tier, 300, 6000)):
+    for _ in range(_n(tier, 200, 6000)):
         n = rng.choice([0, 1, 2, 3, 5, 8, 13, 40])
         cases.append(op(bytes(rng.randrange(128) for _k in range(n))))
     alpha = list("0123456789abcdefABCDEF") + list("??''") + ["12", "[5]", "[1-2]", "[", "]", "-", "'", "\"", "\"ab\"", "@", "@4", "i", "u",
             "i1", "u4", "z", "%", "$", "*", "${", "{", "}", "}", "(", "|", ")", " ", " ", "\n", "\t", "\r"]
-    for _ in range(_n(tier, 700, 14000)):
+    for _ in range(_n(tier, 500, 14000)):
         n = rng.choice([1, 2, 3, 4, 6, 9, 14, 30])
         cases.append(op("".join(rng.choice(alpha) for _k in range(n))))
     # structural alphabet only: brackets, jumps, saves, skips
     alpha2 = ["$", "{", "}", "(", "|", ")", "?", "'", "${", "12", " "]
-    for _ in range(_n(tier, 400, 8000)):
+    for _ in range(_n(tier, 300, 8000)):
         n = rng.choice([2, 3, 4, 5, 7, 10, 16])
         cases.append(op("".join(rng.choice(alpha2) for _k in range(n))))
     return cases
